@@ -1,27 +1,51 @@
 (* C19 -- a Timer fires exactly at its expiry, and stop/restart always take effect.
    Only statements, closed by the lemma that proves them, and their assumptions.
-   Model: Elem/Timer.v (`fixed` = the code with the three repairs); an execution is any list of actions
-   accepted by timer_run: calls by foreign processes, calls made by the callback, kernel steps. *)
-From Coq Require Import ZArith QArith List.
+
+   Model: Elem/Timer.v; `fixed` = the code with the three repairs (scalar args wrapped, restart() from the
+   callback returns after re-basing, restart() tests is_alive).  A history is ANY list of actions accepted by
+   timer_run: stop()/restart(tau) by foreign processes at arbitrary instants (TStop, TRestart), the calls the
+   callback makes on its own timer (the list carried by TProcTimeout), the kernel steps of the timer processes
+   (Initialize, Timeout, Interruption, Process event) in any admissible order, clock advances.  Admissibility
+   assumes only the kernel facts K1 (URGENT before NORMAL, everything due before the clock moves) and K2
+   (Initialize before Interruption).  `fires tr` is the list of (instant, arguments) of the callback invocations.
+   `quiet` histories contain no stop/restart call from anywhere ("unless it is stopped or restarted first").
+
+   fires_from au E tau l fs tend   (Elem/TimerProofs.v)  :=
+     (forall k f, nth_error fs k = Some f -> fst f == E + k * tau /\ snd f = l)     the k-th callback is at E + k tau
+     /\ (if au then tend <= E + (length fs) * tau                                   the clock never passes the next expiry
+         else length fs <= 1 /\ (fs = [] -> tend <= E)).                            one-shot: at most once *)
+From Coq Require Import ZArith QArith List Sorted.
 From ONL Require Import Elem.Timer Elem.TimerProofs.
 Import ListNotations.
+Local Open Scope Q_scope.
 
-(* No admissible history reaches an error state (TypeError on scalar args, RuntimeError for interrupting
-   oneself or a terminated process, a dangling self.proc). *)
-Theorem C19_timer_never_raises : forall t0 tau au a acts st tr,
-  timer_run fixed (timer0 fixed t0 tau au a) acts = Some (st, tr) -> err st = None.
-Proof. exact timer_never_raises. Qed.
-Print Assumptions C19_timer_never_raises.
+(* One-shot timer created at t0, no stop/restart: nothing before t0 + timeout, the clock cannot pass
+   t0 + timeout without the callback, and the callback runs exactly once, at t0 + timeout, with exactly args. *)
+Theorem C19_fires_at_expiry : forall t0 tau a l acts st tr,
+  0 < tau -> norm_args fixed a = Some l -> forallb quiet acts = true ->
+  timer_run fixed (timer0 fixed t0 tau false a) acts = Some (st, tr) ->
+  (fires tr = [] /\ tnow st <= t0 + tau) \/ (exists t, fires tr = [(t, l)] /\ t == t0 + tau).
+Proof. exact fires_at_expiry. Qed.
+Print Assumptions C19_fires_at_expiry.
 
-(* At most one live timer process has no interruption pending: it is self.proc; while it sleeps and the timer
-   is not stopped, its Timeout is due exactly at expire_time, which is not in the past. *)
-Theorem C19_single_live_process : forall t0 tau au a acts st tr,
-  timer_run fixed (timer0 fixed t0 tau au a) acts = Some (st, tr) ->
-  (forall i p, nth_error (procs st) i = Some p -> alive p = true -> intr p = 0%nat -> i = cur st) /\
-  (exists p, nth_error (procs st) (cur st) = Some p /\ intr p = 0%nat /\
-     forall d, ph p = PWait d -> (tnow st <= d)%Q /\ (stopped st = false -> (d == expire st)%Q)).
-Proof. exact single_live_process. Qed.
-Print Assumptions C19_single_live_process.
+(* ... and once that callback ran, no continuation whatsoever (stops, restarts, anything) makes it run again. *)
+Theorem C19_expired_one_shot_never_refires : forall t0 tau a l pre post st1 tr1 st tr,
+  0 < tau -> norm_args fixed a = Some l -> forallb quiet pre = true ->
+  timer_run fixed (timer0 fixed t0 tau false a) pre = Some (st1, tr1) -> fires tr1 <> [] ->
+  timer_run fixed st1 post = Some (st, tr) -> fires tr = [].
+Proof. exact expired_one_shot_never_refires. Qed.
+Print Assumptions C19_expired_one_shot_never_refires.
+
+(* Auto-restart timer, no stop/restart: the k-th callback (k = 0,1,...) runs at t0 + timeout + k timeout with
+   exactly args, and the clock cannot pass the next expiry without it. *)
+Theorem C19_auto_restart_period : forall t0 tau a l acts st tr,
+  0 < tau -> norm_args fixed a = Some l -> forallb quiet acts = true ->
+  timer_run fixed (timer0 fixed t0 tau true a) acts = Some (st, tr) ->
+  (forall k f, nth_error (fires tr) k = Some f ->
+     fst f == t0 + tau + inject_Z (Z.of_nat k) * tau /\ snd f = l) /\
+  tnow st <= t0 + tau + inject_Z (Z.of_nat (length (fires tr))) * tau.
+Proof. exact auto_restart_period. Qed.
+Print Assumptions C19_auto_restart_period.
 
 (* After a stop -- by a foreign process or from the callback -- the callback never runs again, whatever
    follows (restarts included). *)
@@ -33,3 +57,93 @@ Theorem C19_stop_is_final : forall t0 tau au a pre post st tr,
                       stopped st1 = true /\ fires tr2 = [].
 Proof. exact stop_is_final. Qed.
 Print Assumptions C19_stop_is_final.
+
+(* restart(tau') by a foreign process at r = tnow st, in ANY reachable state in which the timer is still
+   pending (not stopped, self.proc alive: before, exactly at -- Timeout not yet processed --, or, for
+   auto-restart, after an expiry; any number of earlier calls in the same instant): from then on, until the next
+   stop/restart, the firings are those of a fresh timer created at r with timeout tau': first at exactly
+   r + tau', none earlier -- in particular none at an old expiry. *)
+Theorem C19_restart_rebases : forall t0 tau au a l pre st trp tau' acts st' tr,
+  norm_args fixed a = Some l ->
+  timer_run fixed (timer0 fixed t0 tau au a) pre = Some (st, trp) ->
+  stopped st = false -> cur_alive st = true -> 0 < tau' -> forallb quiet acts = true ->
+  timer_run fixed st (TRestart tau' :: acts) = Some (st', tr) ->
+  fires_from au (tnow st + tau') tau' l (fires tr) (tnow st') /\
+  Forall (fun f => tnow st + tau' <= fst f) (fires tr).
+Proof. exact restart_rebases. Qed.
+Print Assumptions C19_restart_rebases.
+
+(* restart(tau') as the last call of the callback (no stop among its calls), one-shot or auto-restart: this
+   callback is at r = tnow st with args, the following firings are those of a fresh timer created at r. *)
+Theorem C19_restart_rebases_from_callback : forall t0 tau au a l pre st trp i cs0 tau' acts st' tr,
+  norm_args fixed a = Some l ->
+  timer_run fixed (timer0 fixed t0 tau au a) pre = Some (st, trp) ->
+  stopped st = false -> ~ In CStop cs0 -> 0 < tau' -> forallb quiet acts = true ->
+  timer_run fixed st (TProcTimeout i (cs0 ++ [CRestart tau']) :: acts) = Some (st', tr) ->
+  exists rest, fires tr = (tnow st, l) :: rest /\
+               fires_from au (tnow st + tau') tau' l rest (tnow st') /\
+               Forall (fun f => tnow st + tau' <= fst f) rest.
+Proof. exact restart_rebases_from_callback. Qed.
+Print Assumptions C19_restart_rebases_from_callback.
+
+(* EVERY history: the instants of the callback invocations are strictly increasing (never two callbacks for one
+   expiry, never two in one instant), all after t0, and every invocation carries exactly args. *)
+Theorem C19_no_double_fire : forall t0 tau au a acts st tr l,
+  norm_args fixed a = Some l ->
+  timer_run fixed (timer0 fixed t0 tau au a) acts = Some (st, tr) ->
+  StronglySorted before (fires tr) /\ Forall (fun f => t0 < fst f /\ snd f = l) (fires tr).
+Proof. exact no_double_fire. Qed.
+Print Assumptions C19_no_double_fire.
+
+(* EVERY history: the callback runs only in the Timeout step of self.proc, only when not stopped, and only at
+   the instant that expire_time holds at that moment. *)
+Theorem C19_fires_only_at_expire_time : forall t0 tau au a l pre st trp x st' outs,
+  norm_args fixed a = Some l ->
+  timer_run fixed (timer0 fixed t0 tau au a) pre = Some (st, trp) ->
+  timer_act fixed st x = Some (st', outs) -> outs <> [] ->
+  outs = [OFire l] /\ stopped st = false /\ tnow st == expire st /\ tnow st' = tnow st /\
+  exists cs, x = TProcTimeout (cur st) cs.
+Proof. exact fires_only_at_expire_time. Qed.
+Print Assumptions C19_fires_only_at_expire_time.
+
+(* No admissible history reaches an error state (TypeError on scalar args, RuntimeError for interrupting
+   oneself or a terminated process, a dangling self.proc). *)
+Theorem C19_timer_never_raises : forall t0 tau au a acts st tr,
+  timer_run fixed (timer0 fixed t0 tau au a) acts = Some (st, tr) -> err st = None.
+Proof. exact timer_never_raises. Qed.
+Print Assumptions C19_timer_never_raises.
+
+(* The invariant: at most one live timer process has no interruption pending, and it is self.proc; while it
+   sleeps and the timer is not stopped, its Timeout is due exactly at expire_time, which is not in the past. *)
+Theorem C19_single_live_process : forall t0 tau au a acts st tr,
+  timer_run fixed (timer0 fixed t0 tau au a) acts = Some (st, tr) ->
+  (forall i p, nth_error (procs st) i = Some p -> alive p = true -> intr p = 0%nat -> i = cur st) /\
+  (exists p, nth_error (procs st) (cur st) = Some p /\ intr p = 0%nat /\
+     forall d, ph p = PWait d -> tnow st <= d /\ (stopped st = false -> d == expire st)).
+Proof. exact single_live_process. Qed.
+Print Assumptions C19_single_live_process.
+
+(* The code before each of the three fix: commits reaches an error state. *)
+Theorem C19_raises_before_fix_scalar_args :
+  exists acts st tr,
+    timer_run {| fx_wrap := false; fx_selfcb := true; fx_alive := true |}
+              (timer0 {| fx_wrap := false; fx_selfcb := true; fx_alive := true |} 0 5 false (AScalar 7)) acts = Some (st, tr)
+    /\ err st = Some ENotIterable.
+Proof. exact raises_before_fix_scalar_args. Qed.
+Print Assumptions C19_raises_before_fix_scalar_args.
+
+Theorem C19_raises_before_fix_restart_from_callback :
+  exists acts st tr,
+    timer_run {| fx_wrap := true; fx_selfcb := false; fx_alive := true |}
+              (timer0 {| fx_wrap := true; fx_selfcb := false; fx_alive := true |} 0 5 false (AScalar 7)) acts = Some (st, tr)
+    /\ err st = Some EInterruptSelf.
+Proof. exact raises_before_fix_restart_from_callback. Qed.
+Print Assumptions C19_raises_before_fix_restart_from_callback.
+
+Theorem C19_raises_before_fix_restart_after_expiry :
+  exists acts st tr,
+    timer_run {| fx_wrap := true; fx_selfcb := true; fx_alive := false |}
+              (timer0 {| fx_wrap := true; fx_selfcb := true; fx_alive := false |} 0 5 false (AScalar 7)) acts = Some (st, tr)
+    /\ err st = Some EInterruptDead.
+Proof. exact raises_before_fix_restart_after_expiry. Qed.
+Print Assumptions C19_raises_before_fix_restart_after_expiry.
